@@ -7,6 +7,7 @@ from fractions import Fraction
 import numpy as np
 
 import core
+from driver import q, unq
 import gen
 from env import import_dit
 
@@ -105,7 +106,7 @@ class C19(object):
         r.features = ['kind=%s' % kind, 'vector=%s' % vector, 'L=%d' % L, 'len=%d' % len(data), 'base=%s' % case['base']]
 
         if kind == 'binning':
-            return self.run_binning(case, r, binned)
+            return self.run_binning(case, r, binned, drv)
 
         words, nwin = drv.call('counts', [L, data])
         mcounts = {tuple(tuple(s) for s in w): c for w, c in words}
@@ -260,7 +261,7 @@ class C19(object):
                 return 'word %s never occurs but has probability %r' % (w, p)
         return None
 
-    def run_binning(self, case, r, binned):
+    def run_binning(self, case, r, binned, drv):
         ts = np.array(case['ts'])
         bins = case['bins']
         style = case['style']
@@ -286,6 +287,12 @@ class C19(object):
                 if l != want:
                     r.oracle_fail = 'uniform bin of %r is %d, threshold formula gives %d' % (x, l, want)
                     break
+            # correspondence with Core/Examples.lean `uniformBin` on exact rationals (samples are dyadic)
+            from fractions import Fraction
+            flo, fhi = Fraction(float(lo)), Fraction(float(hi))
+            mo = drv.call('ubin', [bins, q(flo), q(fhi - flo), q(Fraction(1e-12)), [q(Fraction(float(x))) for x in ts]])
+            if [int(v) for v in mo] != lab:
+                r.mismatch = 'uniform bins %s, model %s' % (lab, mo)
         elif not case['ties']:
             cnt = [lab.count(i) for i in range(bins)]
             n = len(lab)
